@@ -24,6 +24,13 @@ def run(ctx):
     rule_X1(ctx, repo, b)
     rule_RO(ctx, repo, eng, b)
     common_hash_rule(ctx, repo, 'C04.H1')
+    # every transaction whose fields lie in their wire ranges can be built, copied, parsed and serialised (C01): the digest
+    # is defined for all of them, and "what goes on the wire" is what C01 says
+    from . import c01
+    from .. import escape as _esc
+    common.retag(ctx, 'C04.S1', c01.rule_L1, repo, eng, title='the transaction whose fields are hashed serialises as the wire format')
+    common.retag(ctx, 'C04.S2', c01.rule_R1, repo, eng)
+    common.retag(ctx, 'C04.S3', _esc.rule_C01_E2, repo)
     ctx.not_decided += ['the SHA-256 compression function (hashlib, trusted)', 'serialisation of the nested outpoint/outputs (decided under C01)']
     ctx.assume('struct/hashlib semantics; COutPoint and CTxOut layouts as decided by C01')
 
